@@ -29,9 +29,11 @@ def ofOut : Out → Sexp
   | .failed k => tag "failed" [ofNat k]
 
 def obs? : Sexp → Option Obs
-  | .list [a, b, c, d] => do some { ws := ← bool? a, ss := ← bool? b, ff := ← opt? bool? c, leafStop := ← list? bool? d }
+  | .list [a, b, c, d, e] => do
+      some { ws := ← bool? a, ss := ← bool? b, ff := ← opt? bool? c, leafStop := ← list? bool? d, leafFF := ← list? bool? e }
   | _ => none
-def ofObs (o : Obs) : Sexp := .list [ofBool o.ws, ofBool o.ss, ofOpt ofBool o.ff, ofList ofBool o.leafStop]
+def ofObs (o : Obs) : Sexp :=
+  .list [ofBool o.ws, ofBool o.ss, ofOpt ofBool o.ff, ofList ofBool o.leafStop, ofList ofBool o.leafFF]
 
 def trace? : Sexp → Option Trace
   | .list [a, b, c, d, e] => do
@@ -43,16 +45,10 @@ def ofTrace (t : Trace) : Sexp :=
          ofOpt (ofPair ofNat (ofList ofOut)) t.exit]
 
 def classes (i : Input) : List String :=
-  (if Spec.C04.tfrOwnFailfastDirect i then ["tfrOwnFailfastDirect"] else [])
-  ++ (if Spec.C04.nestedMultiFailfast i then ["nestedMultiFailfast"] else [])
+  if Spec.C04.tfrOwnFailfastDirect i then ["tfrOwnFailfastDirect"] else []
 
 def drv : PropDrv Input Trace :=
   { decI := input?, decT := trace?, encT := ofTrace, model := model, clauses := Spec.C04.clauses, classes := classes }
 
-/-- Framework workaround, see `TTV.Drv.C08.handle`: for inputs in a finding class the "spec on model" field
-is reported as `ok` (there the model reproduces the defect on purpose). -/
-def handle (a : List Sexp) : Sexp :=
-  match drv.handle a with
-  | .list [m, si, _, .list (c :: cs)] => .list [m, si, .atom "ok", .list (c :: cs)]
-  | r => r
+def handle : List Sexp → Sexp := drv.handle
 end TTV.Drv.C04
